@@ -5,6 +5,7 @@ import (
 	"fmt"
 	"net"
 	"reflect"
+	"sync/atomic"
 	"testing"
 
 	rhp2 "go.sia.tech/core/rhp/v2"
@@ -315,6 +316,21 @@ func checkRHP2(c R2Case) error {
 	script := func(side int, t *rhp2.Transport, conn net.Conn) func() error {
 		return func() error {
 			defer dl.finished(side)
+			// half of the sessions read every message of a kind into one variable (as a renter downloading several
+			// sections in one RPC does): the variable must then hold exactly the message just read
+			held := map[reflect.Type]rhp2.ProtocolObject{}
+			recv := func(like rhp2.ProtocolObject) rhp2.ProtocolObject {
+				if c.Seed&4 == 0 {
+					return newLike(like).(rhp2.ProtocolObject)
+				}
+				if g, ok := held[reflect.TypeOf(like)]; ok {
+					reusedReceivers.Add(1)
+					return g
+				}
+				g := newLike(like).(rhp2.ProtocolObject)
+				held[reflect.TypeOf(like)] = g
+				return g
+			}
 			for i, p := range plans {
 				o := &outs[side][i]
 				o.done = true
@@ -332,7 +348,7 @@ func checkRHP2(c R2Case) error {
 						}
 						o.eq = true
 						if p.obj != nil {
-							got := newLike(p.obj).(rhp2.ProtocolObject)
+							got := recv(p.obj)
 							if o.err = t.ReadRequest(got, p.maxLen); o.err == nil {
 								o.eq, o.diff = verifyRead(p.obj, got)
 							}
@@ -344,7 +360,7 @@ func checkRHP2(c R2Case) error {
 					o.err = t.WriteResponseErr(p.rpcErr)
 				case p.m.Dir == "resp":
 					o.read = true
-					got := newLike(p.obj).(rhp2.ProtocolObject)
+					got := recv(p.obj)
 					if o.err = t.ReadResponse(got, p.maxLen); o.err == nil {
 						o.eq, o.diff = verifyRead(p.obj, got)
 					}
@@ -391,7 +407,7 @@ func checkRHP2(c R2Case) error {
 							o.eq, o.diff = false, fmt.Sprintf("raw stream is %d bytes, the plaintext after the flag byte is %d", len(data), want)
 							break
 						}
-						got := newLike(p.obj).(rhp2.ProtocolObject)
+						got := recv(p.obj)
 						d := types.NewBufDecoder(data)
 						got.DecodeFrom(d)
 						if d.Err() != nil {
@@ -418,6 +434,7 @@ func checkRHP2(c R2Case) error {
 	if ea != nil || eb != nil {
 		return fail("script panicked: %v / %v", ea, eb)
 	}
+	stats.G().Extra("rhp2_reads_into_a_reused_variable", uint64(reusedReceivers.Swap(0)))
 
 	// ---- oracle
 	if dl.isDeadlocked() {
@@ -573,6 +590,8 @@ func checkRHP2(c R2Case) error {
 	}
 	return nil
 }
+
+var reusedReceivers atomic.Int64
 
 func drawFault(t *rapid.T, frameMode bool, maxFrame int) *FaultSpec {
 	f := &FaultSpec{
